@@ -1284,5 +1284,5 @@ macro_rules! conc_prop {
     };
 }
 
-conc_prop!(C03, "C03", false, "scenario = small breaker configuration, 3-10 callers on clones (plain, with_fallback, or a plain clone taken before with_fallback), a failing/slow first wave, later bursts around the open episode, optional force_open / force_closed / reset tasks, cancels, clock jumps, late probe. Non-trivial: the breaker was open at least once. Distinct = distinct event-log digest.");
-conc_prop!(C09, "C09", true, "same harness as C03 biased to bursts at and after wait_duration_in_open with trial latencies 0-50ms. Non-trivial: at least two callers competed while the breaker was half-open. Distinct = distinct event-log digest.");
+conc_prop!(C03, "C03", false, "scenario = small breaker configuration, 3-10 callers on clones (plain, with_fallback, or a plain clone taken before with_fallback), a failing/slow first wave, later bursts around the open episode, optional force_open / force_closed / reset tasks, cancels, clock jumps, late probe. In one run of six the wrapped service has a capacity (its readiness waits for a free slot, like tower's ConcurrencyLimit). One run in eight is a thread scenario (engine B): 2-4 shuttle threads drive clones of the real service with a no-op waker; every acquisition of a library lock, every operation on a library atomic and every verif::yield_async site is a scheduling point of the seeded thread scheduler; the clock is a paused tokio clock moved by Advance operations. Non-trivial: the breaker was open at least once. Distinct = distinct event-log digest.");
+conc_prop!(C09, "C09", true, "same harness as C03 biased to bursts at and after wait_duration_in_open with trial latencies 0-50ms. In one run of six the wrapped service has a capacity (its readiness waits for a free slot, like tower's ConcurrencyLimit). One run in eight is a thread scenario (engine B): 2-4 shuttle threads drive clones of the real service with a no-op waker; every acquisition of a library lock, every operation on a library atomic and every verif::yield_async site is a scheduling point of the seeded thread scheduler; the clock is a paused tokio clock moved by Advance operations. Non-trivial: at least two callers competed while the breaker was half-open. Distinct = distinct event-log digest.");
